@@ -725,8 +725,9 @@ type grammarBlock struct {
 	neg   bool
 	// far: indexes near both ends of the int32 range (the delta between them does
 	// not fit in 32 bits). Array-backed targets would have to allocate the whole
-	// span, and the paginated store its page table unless every count is a unit
-	// entry of its buffer: those targets are skipped for such blocks.
+	// span, and the paginated store its page table (unless every count happens to
+	// stay a unit entry of its buffer, which is a choice of the implementation and
+	// not relied upon): those targets are skipped for such blocks.
 	far, farPaged bool
 }
 
@@ -878,7 +879,7 @@ func grammarBlocks() []grammarBlock {
 		const lo, span = math.MinInt32 + 10, int64(math.MaxInt32-10) - (math.MinInt32 + 10)
 		for layout := 1; layout <= 3; layout++ {
 			b := mk(neg, layout, lo, []int64{span}, []float64{1, 1})
-			b.far, b.farPaged = true, layout == 3
+			b.far, b.farPaged = true, true
 			all = append(all, b)
 			if layout != 2 {
 				b = mk(neg, layout, lo, []int64{span}, []float64{0.5, 2})
@@ -886,7 +887,7 @@ func grammarBlocks() []grammarBlock {
 				all = append(all, b)
 			}
 			b = mk(neg, layout, lo+span, []int64{-span}, []float64{1, 1})
-			b.far, b.farPaged = true, layout == 3
+			b.far, b.farPaged = true, true
 			all = append(all, b)
 		}
 	}
